@@ -29,6 +29,9 @@ type IG struct {
 	// Funcs: Fn, then the helpers spliced into the graph (see inl.go).
 	Funcs   []*ssa.Function
 	splices []igSplice
+	// Deferred: synthetic call nodes that stand for a deferred call running at a
+	// RunDefers (node -> the Defer instruction).
+	Deferred map[int]*ssa.Defer
 }
 
 type igSplice struct {
@@ -101,6 +104,7 @@ func newIG(m *Module, fn *ssa.Function, diverging map[*ssa.Function]bool) *IG {
 			}
 		}
 	}
+	g.modelDefers()
 	g.splices = splices
 	g.CondOv = map[int]ssa.Value{}
 	g.Copies = map[int][]int{}
@@ -126,6 +130,127 @@ func newIG(m *Module, fn *ssa.Function, diverging map[*ssa.Function]bool) *IG {
 // corresponding successor, every other incoming edge goes to a private copy of
 // the If that tests the operand itself. The resulting graph has the same paths
 // as if the condition had been written in an if statement.
+// modelDefers makes deferred calls visible as calls. A `defer f(x)` that is
+// executed on every path to a function's RunDefers (not inside a branch or a
+// loop) runs f(x) exactly there, so a call node for it is placed after the
+// RunDefers node, last registered first. A deferred function literal's body
+// is spliced in the same way as a helper's. Defers that are registered only on
+// some paths are left as they are (the rules then see no call).
+var modelDefersOn = true
+
+func (g *IG) modelDefers() {
+	g.Deferred = map[int]*ssa.Defer{}
+	if !modelDefersOn || !g.M.inlineOn {
+		return
+	}
+	nfuncs := len(g.Funcs)
+	for fi := 0; fi < nfuncs; fi++ {
+		f := g.Funcs[fi]
+		if len(f.Blocks) == 0 {
+			continue
+		}
+		var defers []*ssa.Defer
+		var runs []int
+		for _, b := range f.Blocks {
+			for _, in := range b.Instrs {
+				switch x := in.(type) {
+				case *ssa.Defer:
+					defers = append(defers, x)
+				case *ssa.RunDefers:
+					runs = append(runs, g.Idx[in])
+				}
+			}
+		}
+		if len(defers) == 0 {
+			continue
+		}
+		entry := g.First[f.Blocks[0]]
+		for _, R := range runs {
+			ok := true
+			for _, D := range defers {
+				dn := g.Idx[D]
+				// D on every path to R, and not on a cycle
+				if p := g.Path([]int{entry}, nil, func(n int) bool { return n == dn }, func(n int) bool { return n == R }); p != nil {
+					ok = false
+				}
+				if g.Reach(g.Succ[dn], nil, nil)[dn] {
+					ok = false
+				}
+			}
+			if !ok {
+				continue
+			}
+			next := g.Succ[R]
+			cur := R
+			for i := len(defers) - 1; i >= 0; i-- {
+				D := defers[i]
+				n := len(g.Ins)
+				fake := &ssa.Call{Call: D.Call}
+				g.Ins = append(g.Ins, fake)
+				g.Succ = append(g.Succ, nil)
+				g.Idx[fake] = n
+				g.Deferred[n] = D
+				g.Succ[cur] = []int{n}
+				cur = n
+				if cl := g.M.deferClosure[D]; cl != nil && len(cl.Blocks) > 0 {
+					// splice the literal's body once (the first RunDefers that needs it)
+					if _, done := g.First[cl.Blocks[0]]; !done {
+						g.Funcs = append(g.Funcs, cl)
+						for _, b := range cl.Blocks {
+							g.First[b] = len(g.Ins)
+							for _, in := range b.Instrs {
+								k := len(g.Ins)
+								g.Idx[in] = k
+								if _, isRet := in.(*ssa.Return); isRet {
+									g.Ins = append(g.Ins, &inlRet{in})
+								} else {
+									g.Ins = append(g.Ins, in)
+								}
+								g.Succ = append(g.Succ, nil)
+							}
+						}
+						for _, b := range cl.Blocks {
+							base := g.First[b]
+							for i, in := range b.Instrs {
+								k := base + i
+								if i < len(b.Instrs)-1 {
+									g.Succ[k] = []int{k + 1}
+									continue
+								}
+								if _, isRet := in.(*ssa.Return); isRet {
+									continue
+								}
+								for _, sb := range b.Succs {
+									g.Succ[k] = append(g.Succ[k], g.First[sb])
+								}
+							}
+						}
+						g.Succ[cur] = []int{g.First[cl.Blocks[0]]}
+						// its returns continue after the deferred call; with several
+						// RunDefers only the first is exact, so only a single
+						// RunDefers gets a spliced body
+						if len(runs) == 1 {
+							// placeholder node that the returns lead to
+							j := len(g.Ins)
+							g.Ins = append(g.Ins, fake)
+							g.Succ = append(g.Succ, nil)
+							g.Deferred[j] = D
+							for _, b := range cl.Blocks {
+								last := g.First[b] + len(b.Instrs) - 1
+								if _, ok := g.Ins[last].(*inlRet); ok {
+									g.Succ[last] = []int{j}
+								}
+							}
+							cur = j
+						}
+					}
+				}
+			}
+			g.Succ[cur] = next
+		}
+	}
+}
+
 func (g *IG) computePred() {
 	g.Pred = make([][]int, len(g.Ins))
 	for n, ss := range g.Succ {
@@ -505,6 +630,12 @@ func (g *IG) posOf(n int) string {
 	if !p.IsValid() {
 		// fall back to the nearest instruction of the same block with a position
 		b := g.Ins[n].Block()
+		if b == nil {
+			if d, ok := g.Deferred[n]; ok {
+				return g.M.pos(d.Pos())
+			}
+			return "-"
+		}
 		for _, in := range b.Instrs {
 			if in.Pos().IsValid() {
 				p = in.Pos()
@@ -712,6 +843,34 @@ func (g *IG) expandBoolPhis(facts []Fact, depth int) []Fact {
 	out := facts
 	for _, f := range facts {
 		if f.Y != nil {
+			// phi op K with a constant K: the phi has the value of one of its
+			// operands; constant operands that fail the test are excluded, and
+			// if one operand remains the fact holds of it (`err != nil` where
+			// err merges nil and the result of the call in the loop)
+			phi, isPhi := f.X.(*ssa.Phi)
+			k, isK := f.Y.(*ssa.Const)
+			if !isPhi || !isK {
+				continue
+			}
+			var rest ssa.Value
+			n, okShape := 0, true
+			for _, e := range phi.Edges {
+				if ec, isC := e.(*ssa.Const); isC {
+					if dec, val := foldConstCmp(f.Op, ec, k); dec && !val {
+						continue
+					}
+					okShape = false
+					continue
+				}
+				if e == ssa.Value(phi) {
+					continue
+				}
+				rest = e
+				n++
+			}
+			if okShape && n == 1 {
+				out = append(out, Fact{Op: f.Op, X: rest, Y: f.Y, Edge: f.Edge})
+			}
 			continue
 		}
 		phi, ok := f.X.(*ssa.Phi)
@@ -906,6 +1065,9 @@ func (g *IG) edgeCrosses(e Edge, through []Edge) bool {
 // loopOf returns the header and body of the innermost natural loop containing
 // block b (nil if b is not in a loop).
 func loopOf(b *ssa.BasicBlock) (header *ssa.BasicBlock, body map[*ssa.BasicBlock]bool) {
+	if b == nil {
+		return nil, nil
+	}
 	fn := b.Parent()
 	best := -1
 	for _, h := range fn.Blocks {
